@@ -671,4 +671,9 @@ Definition all_float (s : list absval) : bool :=
 Definition all_scalar_kind (s : list absval) : bool :=
   forallb (fun v => match v with Np _ (KScalar | KEither) => true | _ => false end) s.
 
+Definition accs_in_place (r : oprow) : bool := forallb (fun a => snd a) (op_accs r).
+
+Definition in_dtypes (ds : list dtype) (s : list absval) : bool :=
+  forallb (fun v => match v with Np d _ => existsb (dtype_eqb d) ds | _ => false end) s.
+
 Definition str_eqb (a b : string) : bool := if string_dec a b then true else false.
